@@ -938,3 +938,338 @@ Proof.
   - apply TR_handle_votes.
   - apply TR_handle_replay.
 Qed.
+
+(** * Histories of mirror + managers *)
+Definition no_restart (o : mop) : bool := match o with MK x => negb (is_restart_x x) | _ => true end.
+
+(** a history: every operation succeeds; the outputs are collected in order *)
+Fixpoint mrun (s : mstate) (ops : list mop) : res (mstate * list mio) :=
+  match ops with
+  | [] => Ok (s, [])
+  | o :: rest =>
+      match mstep s o with
+      | Ok (s1, _, io) =>
+          match mrun s1 rest with
+          | Ok (s', ios) => Ok (s', io :: ios)
+          | Panic e => Panic e
+          end
+      | Panic e => Panic e
+      end
+  end.
+
+Lemma skipn_app_length {A} (l new : list A) : skipn (List.length l) (l ++ new) = new.
+Proof. induction l as [|x l IH]; [reflexivity|exact IH]. Qed.
+
+(** what a kernel operation does to the pair *)
+Lemma mk_step_facts s o s1 r io :
+  mstep s (MK (XOp o)) = Ok (s1, r, io) ->
+  exists new, st_ev (ms_k s1) = st_ev (ms_k s) ++ new /\ TR3 (views (ms_k s)) (views (ms_k s1)) new /\
+              ms_m s1 = fold_left mgr_step new (ms_m s) /\ io = IONone.
+Proof.
+  cbn [mstep xstep is_restart_x]. unfold bind. destruct (step (ms_k s) o) as [[k' r1]|] eqn:Hs; [|discriminate].
+  intros E; inversion E; subst. destruct (TR_step _ _ _ _ Hs) as (new&He&H3).
+  exists new. cbn [ms_k ms_m]. rewrite He, skipn_app_length. repeat split; assumption.
+Qed.
+
+Lemma mstep_ext s o s1 r io : no_restart o = true -> mstep s o = Ok (s1, r, io) ->
+  exists new, st_ev (ms_k s1) = st_ev (ms_k s) ++ new.
+Proof.
+  destruct o as [[o| |]|h0 r0| |]; cbn [no_restart is_restart_x negb]; try discriminate; intros _ H.
+  - destruct (mk_step_facts _ _ _ _ _ H) as (new&He&_). exists new. exact He.
+  - exists []. rewrite app_nil_r. revert H. cbn [mstep]. unfold bind.
+    destruct (find_view _ _ _) as [[vid st]|]; [|discriminate].
+    destruct (st =? ViewFound); [intros E; inversion E; reflexivity|].
+    destruct (st =? ViewBeforeCommitting); [|discriminate].
+    destruct (hdr_get _ _) as [[x cp]|]; [intros E; inversion E; reflexivity|discriminate].
+  - exists []. rewrite app_nil_r. revert H. cbn [mstep].
+    destruct (sm_output _) as [[[vv jv] sv]|]; intros E; inversion E; reflexivity.
+  - exists []. rewrite app_nil_r. revert H. cbn [mstep].
+    destruct (g_output _) as [[[[c v] n] nl]|]; intros E; inversion E; reflexivity.
+Qed.
+
+Lemma mrun_ext ops : forall s s' ios, forallb no_restart ops = true -> mrun s ops = Ok (s', ios) ->
+  exists new, st_ev (ms_k s') = st_ev (ms_k s) ++ new.
+Proof.
+  induction ops as [|o rest IH]; intros s s' ios Hall; cbn [mrun].
+  - intros E; inversion E; subst. exists []. symmetry; apply app_nil_r.
+  - cbn [forallb] in Hall. apply andb_true_iff in Hall as [Ho Hr].
+    destruct (mstep s o) as [[[s1 r] io]|] eqn:Hs; [|discriminate].
+    destruct (mrun s1 rest) as [[s2 ios2]|] eqn:Hm; [|discriminate].
+    intros E; inversion E; subst.
+    destruct (mstep_ext _ _ _ _ _ Ho Hs) as (n1&E1). destruct (IH _ _ _ Hr Hm) as (n2&E2).
+    exists (n1 ++ n2). rewrite E2, E1, app_assoc. reflexivity.
+Qed.
+
+Lemma ok_prefix (l new : list mev) : Forall ev_ok (l ++ new) -> Forall ev_ok l /\ Forall ev_ok new.
+Proof. apply Forall_app. Qed.
+
+(** ** The gossip manager's slots *)
+Definition gslot (g : gm) (k : N) : gout :=
+  if k =? ViewIDVoting then gm_vot g else if k =? ViewIDCommitting then gm_com g else gm_nxt g.
+
+Fixpoint last_mark (k : N) (evs : list mev) (d : view) : view :=
+  match evs with
+  | [] => d
+  | EvMark vid m :: rest => last_mark k rest (if slot vid =? k then m else d)
+  | _ :: rest => last_mark k rest d
+  end.
+
+Definition is_slot (k : N) : Prop := k = ViewIDVoting \/ k = ViewIDCommitting \/ k = ViewIDNextRound.
+
+Lemma mgr_step_gslot m e k : is_slot k ->
+  gslot (m_g (mgr_step m e)) k =
+  mk_gout (last_mark k [e] (go_v (gslot (m_g m) k))) (go_sent (gslot (m_g m) k)).
+Proof.
+  intros Hk. destruct m as [sm [gc gv gn gl] cm]. destruct e as [vid v|v|v|h]; cbn [mgr_step m_g m_sm m_committed last_mark].
+  - unfold slot. destruct (vid =? ViewIDVoting); [|destruct (vid =? ViewIDCommitting)];
+      destruct Hk as [->|[->| ->]]; cbn; try (destruct gc; reflexivity); try (destruct gv; reflexivity); try (destruct gn; reflexivity).
+  - destruct Hk as [->|[->| ->]]; cbn; [destruct gv|destruct gc|destruct gn]; reflexivity.
+  - destruct Hk as [->|[->| ->]]; cbn; [destruct gv|destruct gc|destruct gn]; reflexivity.
+  - destruct Hk as [->|[->| ->]]; cbn; [destruct gv|destruct gc|destruct gn]; reflexivity.
+Qed.
+
+Lemma last_mark_cons k e rest d : last_mark k (e :: rest) d = last_mark k rest (last_mark k [e] d).
+Proof. destruct e; reflexivity. Qed.
+
+Lemma fold_mgr_gslot k : is_slot k -> forall new m,
+  gslot (m_g (fold_left mgr_step new m)) k =
+  mk_gout (last_mark k new (go_v (gslot (m_g m) k))) (go_sent (gslot (m_g m) k)).
+Proof.
+  intros Hk. induction new as [|e new IH]; intros m; cbn [fold_left].
+  - cbn [last_mark]. destruct (gslot (m_g m) k); reflexivity.
+  - rewrite IH, (mgr_step_gslot m e k Hk). cbn [go_v go_sent]. rewrite (last_mark_cons k e new). reflexivity.
+Qed.
+
+(** the tracked view only moves up along the events *)
+Lemma last_mark_vle k : forall new x,
+  (forall vid m, In (EvMark vid m) new -> slot vid = k -> vle x m) -> ord_pairs new ->
+  vle x (last_mark k new x) /\
+  (last_mark k new x = x \/ exists vid, slot vid = k /\ In (EvMark vid (last_mark k new x)) new).
+Proof.
+  induction new as [|e new IH]; intros x Hx Ho; cbn [last_mark].
+  - split; [apply vle_refl|left; reflexivity].
+  - destruct Ho as [Ho1 Ho2].
+    assert (Hrest : (forall vid m, In (EvMark vid m) new -> slot vid = k -> vle x m))
+      by (intros vid m Hin; apply Hx; right; exact Hin).
+    destruct e as [vid0 m0|m0|m0|h0];
+      try (destruct (IH x Hrest Ho2) as [A [B|(vid&B1&B2)]]; split; [exact A|left; exact B|exact A|right; exists vid; split; [exact B1|right; exact B2]]).
+    destruct (N.eqb_spec (slot vid0) k) as [Es|Es].
+    + assert (Hm : forall vid m, In (EvMark vid m) new -> slot vid = k -> vle m0 m).
+      { intros vid m Hin Hs. rewrite Forall_forall in Ho1. specialize (Ho1 _ Hin). cbn [ev_rel] in Ho1.
+        apply Ho1. congruence. }
+      destruct (IH m0 Hm Ho2) as [A B]. split.
+      * eapply vle_trans; [apply (Hx vid0 m0); [left; reflexivity|exact Es]|exact A].
+      * right. destruct B as [B|(vid&B1&B2)].
+        -- exists vid0. split; [exact Es|left; rewrite B; reflexivity].
+        -- exists vid. split; [exact B1|right; exact B2].
+    + destruct (IH x Hrest Ho2) as [A [B|(vid&B1&B2)]]; split; [exact A|left; exact B|exact A|right; exists vid; split; [exact B1|right; exact B2]].
+Qed.
+
+Lemma slot_of_slot k : is_slot k -> slot k = k.
+Proof. intros [->|[->| ->]]; reflexivity. Qed.
+
+Lemma tracker_step t t' new k g :
+  is_slot k -> Forall ev_ok new -> kinv t -> TR3 t t' new ->
+  vle g (get3 t k) ->
+  vle g (last_mark k new g) /\ vle (last_mark k new g) (get3 t' k).
+Proof.
+  intros Hk Hok Hkinv H3 Hg. destruct (H3 Hok Hkinv) as (K'&S&P&M&Nn&O).
+  rewrite Forall_forall in M, Nn.
+  assert (Hx : forall vid m, In (EvMark vid m) new -> slot vid = k -> vle g m).
+  { intros vid m Hin Hs. specialize (M _ Hin). cbn [ev_M] in M. apply M.
+    rewrite (get3_slot t vid k); [exact Hg|rewrite Hs; symmetry; apply slot_of_slot; exact Hk]. }
+  destruct (last_mark_vle k new g Hx O) as [A [B|(vid&B1&B2)]].
+  - split; [exact A|]. rewrite B. apply S. exact Hg.
+  - split; [exact A|]. specialize (Nn _ B2). cbn [ev_N] in Nn.
+    rewrite <- (get3_slot t' vid k); [apply Nn|rewrite B1; symmetry; apply slot_of_slot; exact Hk].
+Qed.
+
+Definition triple (v : view) : N * N * N := (v_h v, v_r v, v_ver v).
+
+(** gossip slot [k], with [d] the view last handed to the gossip strategy from it *)
+Definition GI (k : N) (s : mstate) (d : view) : Prop :=
+  let g := gslot (m_g (ms_m s)) k in
+  go_sent g = triple d /\ vle d (go_v g) /\ vle (go_v g) (get3 (views (ms_k s)) k).
+
+Definition g_deliv (k : N) (io : mio) : list view :=
+  match io with
+  | IOGossip c v n _ =>
+      match (if k =? ViewIDVoting then v else if k =? ViewIDCommitting then c else n) with
+      | Some x => [x]
+      | None => []
+      end
+  | _ => []
+  end.
+
+Fixpoint chain_from (R : view -> view -> Prop) (d : view) (l : list view) : Prop :=
+  match l with
+  | [] => True
+  | x :: t => R d x /\ chain_from R x t
+  end.
+
+Lemma g_output_spec g c v n nl : g_output g = Some (c, v, n, nl) ->
+  c = (if go_has_been_sent (gm_com g) then None else Some (go_v (gm_com g))) /\
+  v = (if go_has_been_sent (gm_vot g) then None else Some (go_v (gm_vot g))) /\
+  n = (if go_has_been_sent (gm_nxt g) then None else Some (go_v (gm_nxt g))).
+Proof.
+  unfold g_output.
+  destruct (go_has_been_sent (gm_com g)); destruct (go_has_been_sent (gm_vot g)); destruct (go_has_been_sent (gm_nxt g));
+    destruct (gm_nil g); intros E; inversion E; subst; repeat split.
+Qed.
+
+Lemma not_sent_vlt g d : go_sent g = triple d -> vle d (go_v g) -> go_has_been_sent g = false -> vlt d (go_v g).
+Proof.
+  unfold go_has_been_sent, triple. intros Hs Hl. rewrite Hs. intros Hb.
+  destruct Hl as [Hl|[[P1 P2] [Q1 Q2]]]; [left; exact Hl|]. right. split; [split; assumption|]. split; [|exact Q2].
+  rewrite P1, P2, !N.eqb_refl in Hb. cbn [andb] in Hb. apply N.eqb_neq in Hb. lia.
+Qed.
+
+(** one gossip read, seen from slot [k] *)
+Lemma gread_slot s k d c v n nl :
+  is_slot k -> GI k s d -> g_output (m_g (ms_m s)) = Some (c, v, n, nl) ->
+  let s1 := mk_ms (ms_k s) (mk_mgrs (m_sm (ms_m s)) (g_mark_sent (m_g (ms_m s))) (m_committed (ms_m s))) in
+  match g_deliv k (IOGossip c v n nl) with
+  | [] => GI k s1 d
+  | x :: _ => g_deliv k (IOGossip c v n nl) = [x] /\ vlt d x /\ GI k s1 x
+  end.
+Proof.
+  intros Hk (G1&G2&G3) Ho. destruct (g_output_spec _ _ _ _ _ Ho) as (Ec&Ev&En). subst c v n.
+  unfold GI, g_deliv, gslot, g_mark_sent in *. cbn [ms_m ms_k m_g gm_com gm_vot gm_nxt].
+  destruct Hk as [->|[->| ->]]; cbn [N.eqb Pos.eqb ViewIDVoting ViewIDCommitting ViewIDNextRound] in *.
+  - destruct (go_has_been_sent (gm_vot _)) eqn:Hb; [repeat split; assumption|].
+    split; [reflexivity|]. split; [apply not_sent_vlt; assumption|]. cbn. repeat split; [apply vle_refl|exact G3].
+  - destruct (go_has_been_sent (gm_com _)) eqn:Hb; [repeat split; assumption|].
+    split; [reflexivity|]. split; [apply not_sent_vlt; assumption|]. cbn. repeat split; [apply vle_refl|exact G3].
+  - destruct (go_has_been_sent (gm_nxt _)) eqn:Hb; [repeat split; assumption|].
+    split; [reflexivity|]. split; [apply not_sent_vlt; assumption|]. cbn. repeat split; [apply vle_refl|exact G3].
+Qed.
+
+(** the gossip stream of slot [k] is a strictly increasing chain *)
+Lemma gossip_chain k : is_slot k -> forall ops s s' ios d,
+  forallb no_restart ops = true -> mrun s ops = Ok (s', ios) ->
+  Forall ev_ok (st_ev (ms_k s')) ->
+  kinv (views (ms_k s)) -> GI k s d ->
+  chain_from vlt d (flat_map (g_deliv k) ios).
+Proof.
+  intros Hk. induction ops as [|o rest IH]; intros s s' ios d Hall; cbn [mrun].
+  - intros E; inversion E; subst. intros _ _ _. exact I.
+  - cbn [forallb] in Hall. apply andb_true_iff in Hall as [Ho Hr].
+    destruct (mstep s o) as [[[s1 r] io]|] eqn:Hs; [|discriminate].
+    destruct (mrun s1 rest) as [[s2 ios2]|] eqn:Hm; [|discriminate].
+    intros E; inversion E; subst. intros Hok Hkinv HG. cbn [flat_map].
+    destruct (mrun_ext _ _ _ _ Hr Hm) as (n2&E2). rewrite E2 in Hok. apply ok_prefix in Hok as [Hok1 Hok2].
+    assert (Hfin : Forall ev_ok (st_ev (ms_k s'))) by (rewrite E2; apply Forall_app; split; assumption).
+    destruct o as [[o| |]|h0 r0| |]; cbn [no_restart is_restart_x negb] in Ho; try discriminate.
+    + (* kernel operation *)
+      destruct (mk_step_facts _ _ _ _ _ Hs) as (new&He&H3&Hm1&Hio). subst io. cbn [g_deliv app].
+      rewrite He in Hok1. apply ok_prefix in Hok1 as [Hok0 Hoknew].
+      destruct (H3 Hoknew Hkinv) as (K1&_).
+      apply (IH s1 s' ios2 d Hr Hm Hfin K1).
+      destruct HG as (G1&G2&G3). unfold GI. rewrite Hm1, (fold_mgr_gslot k Hk). cbn [go_v go_sent].
+      destruct (tracker_step _ _ _ k _ Hk Hoknew Hkinv H3 G3) as [A B].
+      split; [exact G1|]. split; [eapply vle_trans; eassumption|exact B].
+    + (* round entrance: the gossip manager and the kernel are untouched *)
+      assert (Hsame : ms_k s1 = ms_k s /\ m_g (ms_m s1) = m_g (ms_m s) /\ g_deliv k io = []).
+      { revert Hs. cbn [mstep]. unfold bind. destruct (find_view _ _ _) as [[vid st]|]; [|discriminate].
+        destruct (st =? ViewFound); [intros E1; inversion E1; repeat split|].
+        destruct (st =? ViewBeforeCommitting); [|discriminate].
+        destruct (hdr_get _ _) as [[x cp]|]; [intros E1; inversion E1; repeat split|discriminate]. }
+      destruct Hsame as (S1&S2&S3). rewrite S3. cbn [app].
+      apply (IH s1 s' ios2 d Hr Hm Hfin); [rewrite S1; exact Hkinv|]. unfold GI in *. rewrite S1, S2. exact HG.
+    + assert (Hsame : ms_k s1 = ms_k s /\ m_g (ms_m s1) = m_g (ms_m s) /\ g_deliv k io = []).
+      { revert Hs. cbn [mstep]. destruct (sm_output _) as [[[vv jv] sv]|]; intros E1; inversion E1; repeat split. }
+      destruct Hsame as (S1&S2&S3). rewrite S3. cbn [app].
+      apply (IH s1 s' ios2 d Hr Hm Hfin); [rewrite S1; exact Hkinv|]. unfold GI in *. rewrite S1, S2. exact HG.
+    + (* gossip read *)
+      revert Hs. cbn [mstep]. destruct (g_output _) as [[[[c v] n] nl]|] eqn:Hgo.
+      * intros E1; inversion E1; subst. pose proof (gread_slot s k d c v n nl Hk HG Hgo) as Hrd. cbv zeta in Hrd.
+        destruct (g_deliv k (IOGossip c v n nl)) as [|x l].
+        -- cbn [app]. apply (IH _ s' ios2 d Hr Hm Hfin); [exact Hkinv|exact Hrd].
+        -- destruct Hrd as (El&Hlt&HG1). inversion El; subst l. cbn [app chain_from]. split; [exact Hlt|].
+           apply (IH _ s' ios2 x Hr Hm Hfin); [exact Hkinv|exact HG1].
+      * intros E1; inversion E1; subst. cbn [g_deliv app]. apply (IH _ s' ios2 d Hr Hm Hfin); assumption.
+Qed.
+
+Lemma chain_from_weaken (R : view -> view -> Prop) (Rt : forall a b c, R a b -> R b c -> R a c) l :
+  forall d x, R d x -> chain_from R x l -> chain_from R d l.
+Proof. destruct l as [|y l]; intros d x Hdx; cbn [chain_from]; [auto|]. intros [A B]. split; [eapply Rt; eassumption|exact B]. Qed.
+
+Lemma chain_from_pairs (R : view -> view -> Prop) (Rt : forall a b c, R a b -> R b c -> R a c) l :
+  forall d, chain_from R d l ->
+  (forall x, In x l -> R d x) /\
+  (forall l1 a l2 b l3, l = l1 ++ a :: l2 ++ b :: l3 -> R a b).
+Proof.
+  induction l as [|y l IH]; intros d; cbn [chain_from].
+  - intros _. split; [intros x []|]. intros l1 a l2 b l3 E. destruct l1; discriminate.
+  - intros [A B]. destruct (IH y B) as [I1 I2]. split.
+    + intros x [E|Hin]; [subst; exact A|eapply Rt; [exact A|apply I1; exact Hin]].
+    + intros l1 a l2 b l3 E. destruct l1 as [|z l1]; cbn [app] in E; inversion E; subst.
+      * apply I1. apply in_or_app. right. left. reflexivity.
+      * eapply I2. reflexivity.
+Qed.
+
+(** ** The initial state *)
+Lemma kinv_init ih ivs : 1 <= ih -> ih < two64 -> kinv (views (init_state ih ivs)).
+Proof. intros H1 H2. unfold kinv, views, init_state, two32. cbn. repeat split; lia. Qed.
+
+Lemma ms_init_k ih ivs : ms_k (ms_init ih ivs) = init_state ih ivs.
+Proof. reflexivity. Qed.
+
+Lemma GI_init ih ivs k : 1 <= ih -> is_slot k -> GI k (ms_init ih ivs) zero_view.
+Proof.
+  intros Hi Hk. unfold GI, ms_init. cbn [ms_m ms_k]. rewrite (fold_mgr_gslot k Hk).
+  cbn [go_v go_sent].
+  destruct Hk as [->|[->| ->]]; cbn; (split; [reflexivity|]); split; try apply vle_refl.
+  - left. left. cbn. lia.
+  - left. left. cbn. lia.
+Qed.
+
+Definition nth_deliveries (k : N) (ios : list mio) : list view := flat_map (g_deliv k) ios.
+
+Theorem gossip_stream_sorted ih ivs ops s' ios k :
+  1 <= ih -> ih < two64 -> is_slot k ->
+  forallb no_restart ops = true -> mrun (ms_init ih ivs) ops = Ok (s', ios) ->
+  Forall ev_ok (st_ev (ms_k s')) ->
+  forall l1 a l2 b l3, nth_deliveries k ios = l1 ++ a :: l2 ++ b :: l3 -> vlt a b.
+Proof.
+  intros H1 H2 Hk Hall Hrun Hok.
+  pose proof (gossip_chain k Hk ops _ _ _ zero_view Hall Hrun Hok (kinv_init ih ivs H1 H2) (GI_init ih ivs k H1 Hk)) as Hc.
+  apply (chain_from_pairs vlt vlt_trans _ _ Hc).
+Qed.
+
+Theorem gossip_versions_strictly_increase ih ivs ops s' ios k :
+  1 <= ih -> ih < two64 -> is_slot k ->
+  forallb no_restart ops = true -> mrun (ms_init ih ivs) ops = Ok (s', ios) ->
+  Forall ev_ok (st_ev (ms_k s')) ->
+  forall l1 a l2 b l3, nth_deliveries k ios = l1 ++ a :: l2 ++ b :: l3 ->
+  v_h a = v_h b -> v_r a = v_r b -> v_ver a < v_ver b.
+Proof.
+  intros H1 H2 Hk Hall Hrun Hok l1 a l2 b l3 E Hh Hr.
+  destruct (gossip_stream_sorted ih ivs ops s' ios k H1 H2 Hk Hall Hrun Hok _ _ _ _ _ E) as [[X|[_ X]]|[_ [X _]]];
+    [lia|lia|exact X].
+Qed.
+
+Theorem gossip_views_grow ih ivs ops s' ios k :
+  1 <= ih -> ih < two64 -> is_slot k ->
+  forallb no_restart ops = true -> mrun (ms_init ih ivs) ops = Ok (s', ios) ->
+  Forall ev_ok (st_ev (ms_k s')) ->
+  forall l1 a l2 b l3, nth_deliveries k ios = l1 ++ a :: l2 ++ b :: l3 ->
+  v_h a = v_h b -> v_r a = v_r b -> view_le a b.
+Proof.
+  intros H1 H2 Hk Hall Hrun Hok l1 a l2 b l3 E Hh Hr.
+  destruct (gossip_stream_sorted ih ivs ops s' ios k H1 H2 Hk Hall Hrun Hok _ _ _ _ _ E) as [[X|[_ X]]|[_ [_ X]]];
+    [lia|lia|exact X].
+Qed.
+
+(** the (height, round) of a slot's deliveries never goes back *)
+Theorem gossip_rounds_never_go_back ih ivs ops s' ios k :
+  1 <= ih -> ih < two64 -> is_slot k ->
+  forallb no_restart ops = true -> mrun (ms_init ih ivs) ops = Ok (s', ios) ->
+  Forall ev_ok (st_ev (ms_k s')) ->
+  forall l1 a l2 b l3, nth_deliveries k ios = l1 ++ a :: l2 ++ b :: l3 ->
+  v_h a < v_h b \/ (v_h a = v_h b /\ v_r a <= v_r b).
+Proof.
+  intros H1 H2 Hk Hall Hrun Hok l1 a l2 b l3 E.
+  destruct (gossip_stream_sorted ih ivs ops s' ios k H1 H2 Hk Hall Hrun Hok _ _ _ _ _ E) as [[X|[X Y]]|[[X Y] _]];
+    [left; exact X|right; split; [exact X|lia]|right; split; [exact X|lia]].
+Qed.
